@@ -726,7 +726,12 @@ def rule_R2(ctx, repo):
     fn = repo.func(VFC, "check_X")
     cs = [c for c in astq.calls(fn) if astq.call_name(c) == "check_series"]
     kw = {k.arg: astq.const_value(k.value, "?") for c in cs for k in c.keywords}
-    ctx.check(bool(cs) and kw.get("allow_numpy") is False, "R2", "check_X:options", "arrays rejected", "check_X allows numpy arrays", ctx.loc(mod, fn))
+    uni_ok = all((k.arg != "enforce_univariate") or astq.const_value(k.value, "?") is False or dotted(k.value) == "enforce_univariate"
+                 for c in cs for k in c.keywords)  # a forwarded flag is pinned by the defaults table (check_X:default:enforce_univariate)
+    ctx.check(bool(cs) and kw.get("allow_numpy") is False and uni_ok and
+              any(k.arg == "allow_empty" and dotted(k.value) == "allow_empty" for c in cs for k in c.keywords),
+              "R2", "check_X:options", "arrays rejected, multivariate exogenous data accepted, allow_empty forwarded",
+              "check_X calls check_series with %s (needs allow_numpy=False, no univariate enforcement, allow_empty forwarded)" % kw, ctx.loc(mod, fn))
     # series.py
     smod = repo.module(VSER)
     fn = repo.func(VSER, "check_time_index")
@@ -833,6 +838,10 @@ def rule_R2(ctx, repo):
               % (ok_dup, len(sorted_rets), single, show(pcv.raises)), ctx.loc(fmod, fn))
     ctx.check(ok_type, "R2", "_check_values:type-default", "unsupported value types raise TypeError",
               "a value of no supported type is not rejected with TypeError by _check_values", ctx.loc(fmod, fn))
+
+
+    from . import _c20_specs
+    _c20_specs.run_all(ctx, repo)
 
 
 def atoms_of_formula(f):
@@ -1116,6 +1125,28 @@ def rule_R4(ctx, repo):
             else:
                 ctx.violation("R4", key, "no guard rejects a window longer than the available history: window start %r can be negative "
                               "(the series is silently truncated by the >= 0 filter)" % train.lo, loc)
+    # exactness of the splitters' feasibility guards (no feasible window rejected, no infeasible one accepted) is C01-R3:
+    # run those obligations and report them here (valid settings that differ only in the offending aspect are accepted)
+    from ..report import Ctx as _Ctx, VIOLATION as _V, UNDECIDED as _U
+    sc = _Ctx("C01", repo)
+    try:
+        del c01.INTERPS[:]
+        for cname in ("SlidingWindowSplitter", "ExpandingWindowSplitter"):
+            c01.check_window_class(sc, repo, cname)
+        c01.check_cutoff_splitter(sc, repo)
+        c01.check_single(sc, repo)
+        borrowed = [r for r in sc.results if r["rule"] == "R3"]
+    except AnalysisError as e:
+        borrowed = None
+        ctx.undecided("R4", "splitters:feasibility-exact", "C01's window analysis could not run: %s" % e, SPLIT + ":1")
+    for r in borrowed or ():
+        key = "splitters:feasibility-exact:" + r["construct"]
+        if r["verdict"] == _V:
+            ctx.violation("R4", key, "(C01-R3) " + str(r["detail"]), r["loc"], r.get("witness"))
+        elif r["verdict"] == _U:
+            ctx.undecided("R4", key, "(C01-R3) " + str(r["detail"]), r["loc"])
+        else:
+            ctx.ok("R4", key, "(C01-R3) " + str(r["detail"]), r["loc"], nontrivial=False)
     # forecaster-side guards
     nf = repo.cls(NAIVE + ":NaiveForecaster")
     fit = nf.methods["fit"]
